@@ -284,11 +284,22 @@ impl Rec {
         let tuple: Vec<i32> = (0..len).map(|k| axes.get(k).map(|a| a[1]).unwrap_or(0)).collect();
         self.calls += 1;
         let r = call_normalize(&fb, ab.as_deref(), &tuple);
+        // the other constructor of a normalised tuple: FvarTable::owned_tuple
+        let owned = guarded(|| {
+            let t = ReadScope::new(&fb).read::<FvarTable<'_>>().ok()?;
+            let vals: Vec<F2Dot14> = (0..len).map(|k| F2Dot14::from_raw(k as i16)).collect();
+            Some(t.owned_tuple(&vals).is_some())
+        });
+        let owned = match owned {
+            Outcome::Returned(Some(b)) => json!(b),
+            Outcome::Returned(None) => json!("fvar unreadable"),
+            Outcome::Panicked(m) => json!(format!("Panic:{}", panic_key(&m))),
+        };
         self.ev(
             case,
             "NormalizeLen",
             json!({"naxes": axes.len(), "len": len, "avar": avar}),
-            json!({"ok": r.is_ok(), "err": r.err().unwrap_or_default()}),
+            json!({"ok": r.is_ok(), "err": r.err().unwrap_or_default(), "owned": owned}),
         );
     }
 }
